@@ -318,7 +318,7 @@ def mkMerge (net : Net) (rs : List Nat) : Option (Net × Nat) := do
     match acc.1.nodes[r]? with
     | some (.pipe _) => some (acc.1, acc.2.1 ++ [r], acc.2.2)
     | some (.arr rest) => some (acc.1, acc.2.1, acc.2.2 ++ rest)
-    | some (.merge sts _) => some (acc.1, acc.2.1 ++ sts, acc.2.2)
+    | some (.merge sts _) => some (acc.1.setNode r .dead, acc.2.1 ++ sts, acc.2.2)   -- absorbed: its sources now belong to the new reader
     | some (.conv _ _) | some (.child _ _) =>
       let r' := acc.1.push (.fpipe r .running)
       some (r'.1, acc.2.1 ++ [r'.2], acc.2.2)
@@ -396,7 +396,9 @@ def applyOp (F : Facts) (fuel : Nat) (net : Net) : Op → Except String (Net × 
   | .feed p items =>
     match getPipe net p with
     | none => .error "bad-op: feed on a non-pipe"
-    | some x => .ok (net.setNode p (.pipe { x with buf := x.buf ++ items }), [])
+    | some x =>
+      if x.sendClosed then .error "bad-op: feed after the writer was closed" else
+      .ok (net.setNode p (.pipe { x with buf := x.buf ++ items }), [])
   | .closeSend p =>
     if !net.writers.contains p then .error "bad-op: close of a writer not held" else
     match (getPipe net p).bind Pipe.closeSend with
